@@ -15,8 +15,8 @@ CONSTANT N
 VARIABLES p, st
 vars == <<p, st>>
 
-X == <<120>>
-Y == <<121>>
+X == <<120, 45, 49>>        \* x-1 : names may hold hyphens ...
+Y == <<121, 63>>            \* y?  : ... and end in a question mark
 W == <<119>>
 T(s) == [t |-> "text", s |-> s]
 Var(n) == [t |-> "var", name |-> n]
@@ -107,5 +107,5 @@ EmitCase == st.status # "run" =>
               \* the same program over outer bindings of the names the loops shadow, held as Drops; the harness puts
               \* its probe tag around every loop: after the loop the name is bound to the very value it was bound to before
               /\ PrintT(ToJson([id |-> "e" \o IdOf(p), kind |-> "render", prog |-> ProgOf(p), snaploops |-> TRUE,
-                                env |-> << <<X, IntV(5)>>, <<Y, Str(<<113>>)>> >>, repr |-> [x |-> "drop", y |-> "drop"]]))
+                                env |-> << <<X, IntV(5)>>, <<Y, Str(<<113>>)>> >>, repr |-> ("x-1" :> "drop") @@ ("y?" :> "drop")]))
 =============================================================================
